@@ -1,3 +1,4 @@
+#![allow(unexpected_cfgs)]
 // Copyright (c) 2022 Lev Kokotov <hi@levthe.dev>
 
 // Permission is hereby granted, free of charge, to any person obtaining
@@ -47,7 +48,13 @@ static GLOBAL: Jemalloc = Jemalloc;
 use log::{debug, error, info, warn};
 use parking_lot::Mutex;
 use pgcat::format_duration;
+#[cfg(pgcat_verif)]
+use simcore::net::TcpListener;
+#[cfg(not(pgcat_verif))]
 use tokio::net::TcpListener;
+#[cfg(pgcat_verif)]
+use simcore::signal::{signal as unix_signal, SignalKind};
+#[cfg(not(pgcat_verif))]
 #[cfg(not(windows))]
 use tokio::signal::unix::{signal as unix_signal, SignalKind};
 #[cfg(windows)]
@@ -102,6 +109,8 @@ fn main() -> Result<(), Box<dyn std::error::Error>> {
         .worker_threads(config.general.worker_threads)
         .enable_all()
         .build()?;
+    #[cfg(pgcat_verif)]
+    let runtime = simcore::rt::handle();
 
     runtime.block_on(async move {
 
@@ -337,4 +346,10 @@ fn main() -> Result<(), Box<dyn std::error::Error>> {
     info!("Shutting down...");
     });
     Ok(())
+}
+
+/// Entry point used by the deterministic-simulation harness (/verif), which includes this file as a module.
+#[cfg(pgcat_verif)]
+pub fn verif_main() -> Result<(), Box<dyn std::error::Error>> {
+    main()
 }
